@@ -145,6 +145,23 @@ def check_reset_new(run, cx, cfg):
         eq = lambda t: t[0] == 'assoc' and t[2] == 'EQUILIBRIUM'
         for p in ps:
             loops = iterator_loops(p)
+            fe = foreach_assignments(cx, p) if not loops else []
+            if len(fe) == 1 and p['end'] == 'return':
+                # window.iter_mut().for_each(|slot| *slot = EQUILIBRIUM)
+                it, val, _k = fe[0]
+                src = p['events'][it[1]] if it[0] == 'ret' else None
+                if not src or rp(src) != 'dasp_ring_buffer::Fixed::<S>::iter_mut' or src['args'][0] != ('ref', self_loc(wi)):
+                    bad = 'must iterate window.iter_mut() (every slot)'
+                elif not eq(val):
+                    bad = 'each slot must be set to EQUILIBRIUM'
+                else:
+                    w = heap_writes(p).get(self_loc(si))
+                    if w is None or not eq(w):
+                        bad = 'the running sum must be set to EQUILIBRIUM after the loop'
+                kinds.update(('slot', 'sum'))
+                if bad:
+                    break
+                continue
             if len(loops) != 1:
                 bad = 'expected one loop over the window'
                 break
